@@ -1,23 +1,23 @@
 (* C14 lemmas about single interpreter steps, the record loop, and emit-by-names. *)
-From Miller Require Import C14.Value C14.Stack C14.Model C14.Proofs.
+From Miller Require Import C14.Value C14.Stack C14.Model C14.Proofs C14.StackProofs.
 Open Scope Z_scope.
 
 (* ---- absent assignment is skipped: the statement changes nothing beyond what evaluating its right-hand side did;
    the indices of the left-hand side are not even evaluated *)
-Lemma absent_assignment_skipped vr fns rec b idx e st st1 :
+Lemma absent_assignment_skipped fns rec b idx e st st1 :
   rec (TEval e) st = Ok (RV VAbsent, st1) ->
-  step vr fns rec (TExec (SAssign b idx e)) st = Ok (RO ONormal, st1).
+  step fns rec (TExec (SAssign b idx e)) st = Ok (RO ONormal, st1).
 Proof. intros H. cbn [step exec_stmt]. unfold ev. rewrite H. reflexivity. Qed.
 
-Lemma absent_declaration_skipped vr fns rec t x e st st1 :
+Lemma absent_declaration_skipped fns rec t x e st st1 :
   rec (TEval e) st = Ok (RV VAbsent, st1) ->
-  step vr fns rec (TExec (SDefine t x e)) st = Ok (RO ONormal, st1).
+  step fns rec (TExec (SDefine t x e)) st = Ok (RO ONormal, st1).
 Proof. intros H. cbn [step exec_stmt]. unfold ev. rewrite H. reflexivity. Qed.
 
 (* a present value assigned to a field lands in the record by Mlrmap.PutCopy: position kept or appended (Proofs.v) *)
-Lemma field_assignment_is_put vr fns rec k e st st1 v r :
+Lemma field_assignment_is_put fns rec k e st st1 v r :
   rec (TEval e) st = Ok (RV v, st1) -> v <> VAbsent -> inrec st1 = Some r ->
-  step vr fns rec (TExec (SAssign (LField k) [] e)) st = Ok (RO ONormal, set_inrec (Some (mput k v r)) st1).
+  step fns rec (TExec (SAssign (LField k) [] e)) st = Ok (RO ONormal, set_inrec (Some (mput k v r)) st1).
 Proof.
   intros H Hv Hr. cbn [step exec_stmt]. unfold ev. rewrite H. cbn. destruct v; try contradiction; cbn; unfold assign_direct; rewrite Hr; reflexivity.
 Qed.
@@ -25,7 +25,7 @@ Qed.
 (* ---- out-of-stream variables persist across records: the next record starts from the oosvars (and nothing else of the
    DSL state but the filter flag and the recycled stack) the previous record's main block left behind *)
 Lemma oosvars_persist vr p q fuel r t st st1 :
-  run_block vr (p_funcs p) fuel (p_main p)
+  run_block (p_funcs p) fuel (p_main p)
     (let st0 := set_nr (nr st + 1) (set_inrec (Some r) st) in if v_filter_per_record vr then set_filt VAbsent st0 else st0) = Ok st1 ->
   exists st2, run_records vr p q fuel (r :: t) st = run_records vr p q fuel t st2 /\ oos st2 = oos st1 /\ stk st2 = stk st1.
 Proof.
@@ -47,20 +47,33 @@ Definition sticky_witness : prog :=
      p_end := [] |}.
 
 Lemma filter_sticky_variant_drops_later_records :
-  run_prog {| v_filter_per_record := false; v_idx_gate := true |} sticky_witness false 50 [[(B "a", VInt 1)]; [(B "a", VInt 2)]] = Ok []
+  run_prog {| v_filter_per_record := false |} sticky_witness false 50 [[(B "a", VInt 1)]; [(B "a", VInt 2)]] = Ok []
   /\ run_prog documented sticky_witness false 50 [[(B "a", VInt 1)]; [(B "a", VInt 2)]] = Ok [ORec [(B "a", VInt 2)]].
 Proof. split; vm_compute; reflexivity. Qed.
 
-(* ---- indexed assignment to a typed local: gated in the reference semantics, not in the pinned tree *)
-Lemma indexed_assignment_gated vr x vs v st fs r cur t st' :
-  v_idx_gate vr = true -> stk st = fs :: r -> fs_get x fs = Some cur -> cur <> VAbsent -> fs_type x fs = Some t ->
-  assign_local_indexed vr x vs v st = Ok (RO ONormal, st') ->
-  exists m, put_indexed_value cur vs v = POk m /\ gate t (VMap m) = true.
+(* ---- indexed assignment to a typed local is an assignment: a local declared with type t accepts x[i] = v only when t
+   admits maps; a scalar-, void-, absent- or error-valued local becomes a fresh map through its gate, a map-valued one is
+   updated (and stays a map) *)
+Lemma gate_map_irrelevant t m m' : gate t (VMap m) = gate t (VMap m').
+Proof. destruct t; reflexivity. Qed.
+
+Lemma indexed_assignment_gated x vs v st fs r t st' :
+  stk st = fs :: r -> fs_type x fs = Some t ->
+  (forall m, fs_get x fs = Some (VMap m) -> gate t (VMap m) = true) ->
+  assign_local_indexed x vs v st = Ok (RO ONormal, st') ->
+  forall m, gate t (VMap m) = true.
 Proof.
-  intros Hv Hs Hg Hc Ht. unfold assign_local_indexed. rewrite Hs, Hg, Hv, Ht.
-  destruct cur; try contradiction; unfold of_pres;
-    (destruct (put_indexed_value _ vs v) as [m'| |] eqn:E; [|discriminate|discriminate]);
-    (destruct (gate t (VMap m')) eqn:G; [|discriminate]); intros _; exists m'; auto.
+  intros Hs Ht Hwt H m. unfold assign_local_indexed in H. rewrite Hs in H.
+  assert (Hfresh : of_pres (fresh_indexed vs v)
+            (fun m0 => match a_set x (VMap m0) (fs :: r) with
+                       | Some s => ro ONormal (set_stk s st)
+                       | None => ro OErr st
+                       end) st = Ok (RO ONormal, st') -> gate t (VMap m) = true).
+  { unfold of_pres. destruct (fresh_indexed vs v) as [m0| |]; try discriminate.
+    destruct (a_set x (VMap m0) (fs :: r)) as [s|] eqn:E; [|discriminate]. intros _.
+    rewrite (gate_map_irrelevant t m m0). eapply C14.StackProofs.set_respects_gate; eauto. }
+  destruct (fs_get x fs) as [[| | | | |cur]|] eqn:Eg; auto.
+  rewrite (gate_map_irrelevant t m cur). now apply Hwt.
 Qed.
 
 (* ---- emit @name, "a", "b" on a two-level map = the records of the two-level grouping, in map order *)
@@ -85,9 +98,9 @@ Definition emit_all (rs : list amap) (st : state) : state := fold_left (fun s r 
 Lemma beqb_false a b : a <> b -> beqb a b = false.
 Proof. intros H. destruct (beqb_spec a b); congruence. Qed.
 
-Lemma emit_inner vr fns name a b k1 : a <> b -> a <> name -> b <> name ->
+Lemma emit_inner fns name a b k1 : a <> b -> a <> name -> b <> name ->
   forall m1 fuel st, forallb (fun kv2 => leaf (snd kv2)) m1 = true -> (List.length m1 < fuel)%nat ->
-  run vr fns fuel (TEmitIdx true [(a, VStr k1)] name m1 [b]) st
+  run fns fuel (TEmitIdx true [(a, VStr k1)] name m1 [b]) st
   = Ok (RO ONormal, emit_all (map (fun kv2 => [(a, VStr k1); (b, VStr (fst kv2)); (name, snd kv2)]) m1) st).
 Proof.
   intros Hab Han Hbn. induction m1 as [|[k2 v] m1 IH]; intros fuel st Hl Hf; (destruct fuel as [|f]; [cbn in Hf; lia|]).
@@ -103,16 +116,16 @@ Qed.
 Lemma emit_all_app rs1 rs2 st : emit_all (rs1 ++ rs2) st = emit_all rs2 (emit_all rs1 st).
 Proof. unfold emit_all. now rewrite fold_left_app. Qed.
 
-Lemma emit_by_names_is_grouping vr fns name a b : a <> b -> a <> name -> b <> name ->
+Lemma emit_by_names_is_grouping fns name a b : a <> b -> a <> name -> b <> name ->
   forall m fuel st, two_level m = true -> (total2 m < fuel)%nat ->
-  run vr fns fuel (TEmitIdx false [] name m [a; b]) st = Ok (RO ONormal, emit_all (group2 name a b m) st).
+  run fns fuel (TEmitIdx false [] name m [a; b]) st = Ok (RO ONormal, emit_all (group2 name a b m) st).
 Proof.
   intros Hab Han Hbn. induction m as [|[k1 v1] m IH]; intros fuel st Hl Hf; (destruct fuel as [|f]; [cbn in Hf; lia|]).
   - reflexivity.
   - cbn [two_level forallb snd] in Hl. apply andb_true_iff in Hl. destruct Hl as [Hv Hl].
     destruct v1 as [| | | | |m1]; try discriminate.
     cbn [run step]. cbn [mput total2] in *.
-    rewrite (emit_inner vr fns name a b k1 Hab Han Hbn m1 f st Hv) by lia.
+    rewrite (emit_inner fns name a b k1 Hab Han Hbn m1 f st Hv) by lia.
     cbn [bind]. rewrite IH; [|exact Hl|lia].
     cbn [group2 flat_map snd fst]. rewrite emit_all_app. reflexivity.
 Qed.
